@@ -13,7 +13,7 @@ from __future__ import annotations
 
 import ast
 
-from ..flow import flow_of, path_of
+from ..flow import deref, flow_of, path_of
 from ..loader import AnalysisError, dotted, last_name, loc, short, walk_local, enclosing_stmt
 from ..util import CP2K, ENGPARTS, GROMACS, LAMMPS, all_calls, kwarg, oriented
 from ..variants import B, K
@@ -128,6 +128,16 @@ def _parse_sites(f, loop, line, toks):
             if _mentions(n.args[0], toks | {line}):
                 # np.array(frame_coordinates) does not mention tokens
                 sites.append(n)
+            else:
+                # float(val) for val in tokens[1:4]: the comprehension variable stands for a token
+                p_ = getattr(n, "_parent", None)
+                while p_ is not None and not isinstance(p_, ast.stmt):
+                    if isinstance(p_, (ast.ListComp, ast.GeneratorExp, ast.SetComp)):
+                        for g in p_.generators:
+                            tv = {x.id for x in ast.walk(g.target) if isinstance(x, ast.Name)}
+                            if _mentions(g.iter, toks | {line}) and _mentions(n.args[0], tv):
+                                sites.append(n)
+                    p_ = getattr(p_, "_parent", None)
         if isinstance(n, (ast.Assign, ast.AugAssign)):
             tgts = n.targets if isinstance(n, ast.Assign) else [n.target]
             if any(isinstance(t, ast.Subscript) for t in tgts) and _mentions(n.value, toks):
@@ -195,9 +205,14 @@ def text_reader(ctx, f):
         complete = False
         resync = False
         for e, truth, bn in facts:
-            o = oriented(e, lambda x: isinstance(x, ast.BinOp) and isinstance(x.op, ast.Mod)) if truth else None
+            def _mod_of(x):
+                """x or the single definition of the local x, when that is `<index> % <block>`"""
+                y = deref(fl, x, bn)[0] if isinstance(x, ast.Name) else x
+                return y if isinstance(y, ast.BinOp) and isinstance(y.op, ast.Mod) else None
+
+            o = oriented(e, lambda x: _mod_of(x) is not None) if truth else None
             if o is not None and isinstance(o[1], ast.Eq):
-                if idx is None or _mentions(o[0].left, {idx}):
+                if idx is None or _mentions(_mod_of(o[0]).left, {idx}):
                     complete = True
             o2 = oriented(e, lambda x: path_of(x) == line) if truth else None
             if o2 is not None and isinstance(o2[2], ast.Constant) and o2[2].value == "\n":
@@ -240,10 +255,16 @@ def trr_reader(ctx):
             if not truth:
                 continue
             # orient as  <size> >= <bytes_read + needed>  however the test is written
-            o = oriented(e0, lambda x: not ("self.bytes_read" in ast.unparse(x)))
+            def _needs(x):
+                """the bytes-needed side: mentions bytes_read directly or through a local"""
+                y = deref(fl, x, bn)[0] if isinstance(x, ast.Name) else x
+                return "self.bytes_read" in ast.unparse(y)
+
+            o = oriented(e0, lambda x: not _needs(x))
             if o is None or not isinstance(o[1], (ast.GtE, ast.Gt)):
                 continue
-            rhs = o[2]
+            rhs = deref(fl, o[2], bn)[0] if isinstance(o[2], ast.Name) else o[2]
+            o = (o[0], o[1], rhs)
             if "self.bytes_read" not in ast.unparse(rhs) or not isinstance(rhs, ast.BinOp) or not isinstance(rhs.op, ast.Add):
                 continue
             e = ast.Compare(left=o[0], ops=[o[1]], comparators=[o[2]])
